@@ -63,6 +63,14 @@ def make_cases(mods, rng, tier):
                     tr = sorted(set(tr), key=tns.index)
                 if m["name"] == "XB":
                     continue      # the size cases below
+                if m["name"] == "XP":
+                    # preamble length: every presence pattern of the OPTIONAL root members x additions none / all
+                    k = sum(1 for t in x["rtrees"] if t[0] == "?")
+                    for rp in extgen.root_presence_patterns(k, rng):
+                        for p in (["none"] if x["nadd"] == 0 else ["none", "all"]):
+                            add(m, tn, extgen.seq_value(x, extgen.presence(p, x["nadd"], rng), rng, rpres=rp),
+                                "preamble:k%d:%s:%s" % (k, "".join("1" if b else "0" for b in rp) or "-", p), tr)
+                    continue
                 if x["kind"] == "seq":
                     n = x["nadd"]
                     pats = ["none"] if n == 0 else extgen.PATTERNS
